@@ -31,6 +31,25 @@ func (st *state) has(m string, key []byte) bool {
 	return false
 }
 
+func (st *state) get(m string, key []byte) []byte { // entries are loaded in order: the last one wins
+	var v []byte
+	for _, e := range st.Entries {
+		if e.Map == m && string(e.Key) == string(key) {
+			v = e.Value
+		}
+	}
+	return v
+}
+
+func (st *state) any(m string) bool {
+	for _, e := range st.Entries {
+		if e.Map == m {
+			return true
+		}
+	}
+	return false
+}
+
 func le32(v uint32) []byte { return binary.LittleEndian.AppendUint32(nil, v) }
 func le64(v uint64) []byte { return binary.LittleEndian.AppendUint64(nil, v) }
 
